@@ -100,6 +100,9 @@ Inductive case :=
 | CValServerCfg (c : ServerConfig) (accepted : bool)
 | CValClientCommon (c : ClientCommonConfig) (accepted : bool)
 | CValVisitor (b : VisitorBaseConfig) (xtcp_protocol : option bytes) (accepted : bool)
+(* templated files loaded CONCURRENTLY in one process through the real file entry point: for each load the document it
+   was given (1, 2, ...) and the document its result corresponds to (0 = none: error or a hybrid) *)
+| CRenderTrace (entries : list (nat * nat))
 (* real frps flag set: --dashboard_tls_mode <arg> with the cert and key file flags: parse error?, webServer.tls *)
 | CTlsFlag (arg cert key : bytes) (parse_err : bool) (tls : option TLSConfig).
 
@@ -196,6 +199,9 @@ Definition check_case (c : case) : Z :=
       if negb (Bool.eqb (vs_client_ok c) accepted) then 102
       else if accepted && negb (forallb (fun np : string * Z => val_port (snd np)) (vs_client_ports c)) then 104 else 0
   | CValVisitor b xp accepted => if Bool.eqb (vs_visitor_ok b xp) accepted then 0 else 103
+  | CRenderTrace entries =>
+      (* the answer Proofs/RenderOwnProofs.v gives for every schedule: each load parses its own document *)
+      if forallb (fun e : nat * nat => Nat.eqb (fst e) (snd e)) entries then 0 else 96
   | CTlsFlag arg cert key parse_err tls =>
       match flags_web_tls arg cert key with
       | None => if parse_err then 0 else 91
@@ -249,3 +255,4 @@ Definition is_section_rejected (c : case) : bool :=
   match c with CValServerCfg _ false | CValClientCommon _ false | CValVisitor _ _ false => true | _ => false end.
 Definition is_section_accepted (c : case) : bool :=
   match c with CValServerCfg _ true | CValClientCommon _ true | CValVisitor _ _ true => true | _ => false end.
+Definition render_trace_len (c : case) : Z := match c with CRenderTrace e => Z.of_nat (length e) | _ => 0 end.
